@@ -74,6 +74,9 @@ def plain_python_env():
     env['PYTHONDONTWRITEBYTECODE'] = '1'
     env['PYTHONHASHSEED'] = '0'
     env['VF_PLAIN'] = '1'
+    repo = os.environ.get('VERIF_REPO')
+    if repo:            # seed testing against a scratch copy of the repository: the plain package must come from there too
+        env['PYTHONPATH'] = repo + (os.pathsep + env['PYTHONPATH'] if env.get('PYTHONPATH') else '')
     return env
 
 
@@ -250,8 +253,9 @@ def run_check(pid, tier, seed):
     )
     ev = dict(property_id=pid, tier=tier, seed=seed, level=meta.get('level', 'model_checking'), coverage=cov,
               assumptions=meta.get('assumptions', []), wall_s=round(wall, 2), violations=len(new_violations))
-    os.makedirs(os.path.join(HERE, 'evidence'), exist_ok=True)
-    with open(os.path.join(HERE, 'evidence', '%s.json' % pid), 'w') as f:
+    evdir = os.environ.get('VERIF_EVIDENCE_DIR') or os.path.join(HERE, 'evidence')
+    os.makedirs(evdir, exist_ok=True)
+    with open(os.path.join(evdir, '%s.json' % pid), 'w') as f:
         json.dump(ev, f, indent=1, default=str)
     for ln in lines:
         print(ln)
